@@ -115,6 +115,12 @@ pub fn alphabet(full: bool) -> Vec<Letter> {
   ));
   // SP moved onto I/O: LD SP,FF10; PUSH BC (-> FF0F, FF0E); LD SP,0000; PUSH DE (-> FFFF, FFFE); LD SP,DFF0
   v.push(l("sp-on-io", &[0x31, 0x10, 0xFF, 0xC5, 0x31, 0x00, 0x00, 0xD5, 0x31, 0xF0, 0xDF]));
+  // a long straight-line block (> 255 machine cycles in one catch-up batch)
+  {
+    let mut b = vec![0x00u8; 300];
+    b.extend_from_slice(&[0x04]); // INC B
+    v.push(l("sled300", &b));
+  }
   v.push(l("ei-nop-di", &[0xFB, 0x00, 0xF3]));
   if full {
     v.push(l("ei-di", &[0xFB, 0xF3]));
